@@ -1,26 +1,1127 @@
 //! crashsim: crash-point and single-fault enumeration on top of the sequential executor.
+//!
+//! For a history H: run it once recording the ordered trace of mutating system calls (with the
+//! driver's operation markers).  Then
+//!   * for every crash point k (a prefix of k completed calls) and each persistence model, build
+//!     the image, reopen it with the real code and judge what is read back;
+//!   * for every call j and errno in {EIO, ENOSPC}, re-execute H with exactly that call failing.
 
-use std::path::Path;
+use std::collections::{BTreeMap, BTreeSet};
+use std::panic::{catch_unwind, AssertUnwindSafe};
+use std::path::{Path, PathBuf};
 
 use serde::{Deserialize, Serialize};
+use serde_json::json;
 
-use crate::image::Persist;
-use crate::seq::Replay;
+use crate::exec::{self, err_class, fmt_key, fmt_val, panic_class, Exec, Oracles, Probes, Violation};
+use crate::fsx::{self, Ev, Fault};
+use crate::hist::{self, History, Op, Profile};
+use crate::image::{Image, Persist};
+use crate::model::{self, Map};
+use crate::rng::{self, Rng};
+use crate::seq::{self, Replay};
+use crate::util::{self, Args, KnownFindings, Part};
 
-#[derive(Clone, Debug, Serialize, Deserialize)]
+#[derive(Clone, Debug, Serialize, Deserialize, PartialEq, Eq)]
 pub struct CrashPoint {
     /// Number of mutating calls that completed before the crash.
     pub k: u64,
     pub persist: Persist,
 }
 
-#[derive(Clone, Debug, Serialize, Deserialize)]
+#[derive(Clone, Debug, Serialize, Deserialize, PartialEq, Eq)]
 pub struct FaultPoint {
     pub at: u64,
     pub errno: i32,
 }
 
-pub fn replay(_r: &Replay, _path: &Path) -> i32 {
-    eprintln!("HARNESS-ERROR: crash replay not built yet");
-    2
+/// Where a crash point falls relative to the driver's operations.
+#[derive(Clone, Debug)]
+struct PointInfo {
+    /// index into the trace of the mutating event that would have been next
+    event_idx: usize,
+    /// ops fully acknowledged (returned Ok) before this point
+    acked: usize,
+    /// the op in flight, if any
+    in_flight: Option<usize>,
+    /// kind of the call that would have been next, and a coarse protocol phase
+    next_kind: &'static str,
+}
+
+fn analyse(trace: &[Ev]) -> Vec<PointInfo> {
+    let mut out = Vec::new();
+    let mut acked = 0usize;
+    let mut in_flight: Option<usize> = None;
+    for (idx, ev) in trace.iter().enumerate() {
+        match ev {
+            Ev::Mark(m) => {
+                // "op <i> <kind> begin|ok|err|panic", "open begin|end"
+                let parts: Vec<&str> = m.split(' ').collect();
+                if parts.len() == 4 && parts[0] == "op" {
+                    let i: usize = parts[1].parse().unwrap_or(0);
+                    match parts[3] {
+                        "begin" => in_flight = Some(i),
+                        "ok" => {
+                            in_flight = None;
+                            acked = i + 1;
+                        }
+                        _ => in_flight = None,
+                    }
+                }
+            }
+            e if e.is_mutation() => {
+                out.push(PointInfo {
+                    event_idx: idx,
+                    acked,
+                    in_flight,
+                    next_kind: e.kind(),
+                });
+            }
+            _ => {}
+        }
+    }
+    // the point after the last call
+    out.push(PointInfo {
+        event_idx: trace.len(),
+        acked,
+        in_flight: None,
+        next_kind: "end",
+    });
+    out
+}
+
+fn observe(ex: &Exec) -> Result<Map, String> {
+    let mut m = Map::new();
+    let store = ex.store.as_ref().ok_or("store closed")?;
+    for k in ex.h.keys.iter() {
+        let (v, _) = store.load(&k.0)?;
+        m.insert(k.0.clone(), v);
+    }
+    Ok(m)
+}
+
+fn normalise(model: &Map, h: &History) -> Map {
+    let mut m = Map::new();
+    for k in h.keys.iter() {
+        m.insert(k.0.clone(), model.get(&k.0).cloned().flatten());
+    }
+    m
+}
+
+fn describe_diff(obs: &Map, want: &Map) -> String {
+    for (k, v) in obs.iter() {
+        let w = want.get(k).cloned().flatten();
+        if *v != w {
+            return format!("key {}: read {}, expected {}", fmt_key(k), fmt_val(v), fmt_val(&w));
+        }
+    }
+    "no difference".to_string()
+}
+
+/// Judge a reopened image.  `s_prev`: every acknowledged write; `s_next`: additionally the
+/// in-flight client write, if one was in flight.
+#[allow(clippy::too_many_arguments)]
+fn judge_image(
+    h: &History,
+    dir: &Path,
+    s_prev: &Map,
+    s_next: Option<&Map>,
+    in_flight_kind: Option<&'static str>,
+    riders: bool,
+    second_verifier_pass: bool,
+    probes: &mut Probes,
+) -> Vec<Violation> {
+    let mut oracles = Oracles::default();
+    oracles.c04 = riders;
+    let mut ex = Exec::new(h, dir, oracles);
+    let out: std::cell::RefCell<Vec<Violation>> = std::cell::RefCell::new(Vec::new());
+    let v = |p: &str, class: String, detail: String| {
+        out.borrow_mut().push(Violation {
+            property: p.to_string(),
+            class,
+            op_index: 0,
+            detail,
+        });
+    };
+    exec::quiet_panics(true);
+    let opened = catch_unwind(AssertUnwindSafe(|| ex.open()));
+    match opened {
+        Err(_) => {
+            let p = exec::take_panic();
+            v("C02", format!("reopen-panicked:{}", panic_class(&p)), format!("reopening the crash image panicked: {p}"));
+            exec::quiet_panics(false);
+            return out.into_inner();
+        }
+        Ok(Err(e)) => {
+            v("C02", format!("reopen-failed:{}", err_class(&e)), format!("reopening the crash image failed: {e}"));
+            exec::quiet_panics(false);
+            return out.into_inner();
+        }
+        Ok(Ok(())) => {}
+    }
+    probes.hit("images_reopened");
+    let want_prev = normalise(s_prev, h);
+    let want_next = s_next.map(|m| normalise(m, h));
+    let r = catch_unwind(AssertUnwindSafe(|| observe(&ex)));
+    match r {
+        Err(_) => {
+            let p = exec::take_panic();
+            v("C02", format!("read-panicked-after-crash:{}", panic_class(&p)), format!("{p}"));
+        }
+        Ok(Err(e)) => {
+            v("C02", format!("read-error-after-crash:{}", err_class(&e)), e);
+        }
+        Ok(Ok(obs)) => {
+            let ok_prev = obs == want_prev;
+            let ok_next = want_next.as_ref().map(|w| obs == *w).unwrap_or(false);
+            if ok_next {
+                probes.hit("in_flight_write_survived");
+            } else if ok_prev && want_next.is_some() {
+                probes.hit("in_flight_write_absent");
+            }
+            if !ok_prev && !ok_next {
+                // classify
+                let mut class = "unexpected-state-after-crash";
+                if let Some(wn) = want_next.as_ref() {
+                    // keys on which prev and next differ
+                    let touched: Vec<&Vec<u8>> = want_prev
+                        .keys()
+                        .filter(|k| want_prev.get(*k) != wn.get(*k))
+                        .collect();
+                    let others_ok = obs
+                        .iter()
+                        .all(|(k, val)| touched.contains(&k) || want_prev.get(k) == Some(val));
+                    let each_is_old_or_new = touched.iter().all(|k| {
+                        obs.get(*k) == want_prev.get(*k) || obs.get(*k) == wn.get(*k)
+                    });
+                    if others_ok && each_is_old_or_new {
+                        class = "in-flight-batch-partially-applied";
+                    }
+                }
+                if class == "unexpected-state-after-crash" {
+                    let lost = obs.iter().any(|(k, val)| {
+                        let w = want_prev.get(k).cloned().flatten();
+                        w.is_some() && val.is_none()
+                    });
+                    let never = obs.iter().any(|(k, val)| {
+                        val.is_some()
+                            && want_prev.get(k) != Some(val)
+                            && want_next.as_ref().map(|w| w.get(k) != Some(val)).unwrap_or(true)
+                    });
+                    class = if never {
+                        "stale-or-foreign-value-after-crash"
+                    } else if lost {
+                        "acknowledged-write-lost-after-crash"
+                    } else {
+                        "deleted-key-resurrected-after-crash"
+                    };
+                }
+                v(
+                    "C02",
+                    class.to_string(),
+                    format!(
+                        "{} (in flight: {:?})",
+                        describe_diff(&obs, &want_prev),
+                        in_flight_kind
+                    ),
+                );
+            }
+        }
+    }
+    if out.borrow().is_empty() {
+        // nothing outside the universe
+        let store: &exec::Store = ex.store.as_ref().unwrap();
+        let lo = std::ops::Bound::Unbounded;
+        let hi = std::ops::Bound::Unbounded;
+        let r = catch_unwind(AssertUnwindSafe(|| -> Result<Vec<Vec<u8>>, String> {
+            let mut c = store.scan(&lo, &hi)?;
+            let cur: &mut dyn sst::Cursor = c.as_mut();
+            cur.seek_to_first().map_err(|e| format!("{e}"))?;
+            let mut keys = Vec::new();
+            loop {
+                cur.next().map_err(|e| format!("{e}"))?;
+                match cur.key() {
+                    Some(k) => keys.push(k.key.to_vec()),
+                    None => break,
+                }
+                if keys.len() > 10_000 {
+                    break;
+                }
+            }
+            Ok(keys)
+        }));
+        if let Ok(Ok(keys)) = r {
+            for k in keys {
+                if !h.keys.iter().any(|hk| hk.0 == k) {
+                    v("C02", "foreign-key-after-crash".to_string(), format!("scan returned {}", fmt_key(&k)));
+                    break;
+                }
+            }
+        } else {
+            probes.hit("scan_failed_after_crash_not_judged_here");
+        }
+    }
+    if out.borrow().is_empty() && riders {
+        ex.model = s_prev.clone();
+        let r = catch_unwind(AssertUnwindSafe(|| crate::books::check(&mut ex)));
+        if r.is_err() {
+            let p = exec::take_panic();
+            v("C04", format!("books-panicked:{}", panic_class(&p)), p);
+        }
+        let found: Vec<Violation> = ex.violations.drain(..).collect();
+        for mut x in found {
+            if x.class.starts_with("rollover:") {
+                // Does the real verifier reject this image once the fragment is old enough to be
+                // processed?  Two more reopen cycles roll the manifest over twice.
+                let r = catch_unwind(AssertUnwindSafe(|| -> Result<(), String> {
+                    ex.open()?;
+                    ex.open()?;
+                    let opts = exec::build_options(h, dir);
+                    let mut ver = lsmtk::LsmVerifier::open(opts).map_err(|e| format!("{e}"))?;
+                    ver.verify().map_err(|e| format!("{e}"))
+                }));
+                match r {
+                    Ok(Ok(())) => x.detail.push_str(" [LsmVerifier accepted the image]"),
+                    Ok(Err(e)) => x.detail.push_str(&format!(" [LsmVerifier rejects the image: {}]", err_class(&e))),
+                    Err(_) => {
+                        let p = exec::take_panic();
+                        x.detail.push_str(&format!(" [LsmVerifier panicked: {p}]"));
+                    }
+                }
+            }
+            out.borrow_mut().push(x);
+        }
+        probes.hit("images_books_checked");
+    }
+    if out.borrow().is_empty() {
+        // operable: a fresh write, a read, a flush and a compaction step
+        let r = catch_unwind(AssertUnwindSafe(|| -> Result<(), String> {
+            if let Some(exec::Store::Kvs(k)) = ex.store.as_ref() {
+                k.put(b"\x01probe", b"probe-value").map_err(|e| format!("{e}"))?;
+                let mut t = false;
+                let got = k.load(b"\x01probe", &mut t).map_err(|e| format!("{e}"))?;
+                if got.as_deref() != Some(b"probe-value".as_slice()) {
+                    return Err("probe write not readable".to_string());
+                }
+            }
+            match ex.flush_step() {
+                Ok(()) => {}
+                Err(e) if e == "WOULD-DEADLOCK" => {}
+                Err(e) => return Err(e),
+            }
+            ex.compact_step()?;
+            Ok(())
+        }));
+        match r {
+            Err(_) => {
+                let p = exec::take_panic();
+                v("C02", format!("recovered-store-panicked:{}", panic_class(&p)), p);
+            }
+            Ok(Err(e)) => v("C02", format!("recovered-store-not-operable:{}", err_class(&e)), e),
+            Ok(Ok(())) => probes.hit("images_operable"),
+        }
+    }
+    if out.borrow().is_empty() && second_verifier_pass {
+        // An interrupted verifier pass followed by a complete one, then reopen: unchanged.
+        let r = catch_unwind(AssertUnwindSafe(|| -> Result<(), String> {
+            let opts = exec::build_options(h, dir);
+            let mut ver = lsmtk::LsmVerifier::open(opts).map_err(|e| format!("open: {e}"))?;
+            match ver.verify() {
+                Ok(()) => {}
+                Err(e) if lsmtk::error_code(&e) == Some(lsmtk::CODE_BACKOFF) => {}
+                Err(e) => return Err(format!("{e}")),
+            }
+            drop(ver);
+            ex.open()?;
+            let obs = observe(&ex)?;
+            let mut want = want_prev.clone();
+            if let Some(wn) = want_next.as_ref() {
+                if obs == *wn {
+                    want = wn.clone();
+                }
+            }
+            // the probe key is not part of the universe, so `obs` is unaffected by it
+            if obs != want {
+                return Err(format!("CONTENTS {}", describe_diff(&obs, &want)));
+            }
+            Ok(())
+        }));
+        match r {
+            Err(_) => {
+                let p = exec::take_panic();
+                v("C08", format!("verifier-after-crash-panicked:{}", panic_class(&p)), p);
+            }
+            Ok(Err(e)) if e.starts_with("CONTENTS") => {
+                v("C08", "contents-changed-after-verifier-pass-on-crash-image".to_string(), e)
+            }
+            Ok(Err(e)) => {
+                // a verifier that cannot proceed is C04's accept half
+                v("C04", format!("verifier-rejects-crash-image:{}", err_class(&e)), e)
+            }
+            Ok(Ok(())) => probes.hit("images_verifier_pass_then_reopen_unchanged"),
+        }
+    }
+    let _ = catch_unwind(AssertUnwindSafe(|| ex.close()));
+    exec::quiet_panics(false);
+    out.into_inner()
+}
+
+struct Recorded {
+    trace: Vec<Ev>,
+    points: Vec<PointInfo>,
+    ok: bool,
+    probes: Probes,
+}
+
+fn record(h: &History, root: &Path) -> Recorded {
+    let cfg = exec::RunCfg {
+        root: root.to_path_buf(),
+        oracles: Oracles::default(),
+        record_fs: true,
+        fault: None,
+        stop_at_first: true,
+        ops_after_fault: 0,
+    };
+    let out = Exec::run(h, &cfg);
+    let all_ok = out
+        .op_results
+        .iter()
+        .all(|r| matches!(r, exec::OpResult::Ok))
+        && out.violations.iter().all(|v| {
+            // read-only failures of other properties do not invalidate the recording
+            v.property == "C03" || v.property == "C07"
+        });
+    let points = analyse(&out.trace);
+    Recorded {
+        trace: out.trace,
+        points,
+        ok: all_ok,
+        probes: out.probes,
+    }
+}
+
+fn sample_points(n: usize, max_points: usize, rng: &mut Rng, trace: &[Ev], points: &[PointInfo]) -> Vec<usize> {
+    if n <= max_points {
+        return (0..n).collect();
+    }
+    let mut chosen: BTreeSet<usize> = BTreeSet::new();
+    chosen.insert(0);
+    chosen.insert(n - 1);
+    // always: calls adjacent to link / rename / unlink / manifest appends
+    for (i, p) in points.iter().enumerate() {
+        if matches!(p.next_kind, "link" | "rename" | "unlink") {
+            chosen.insert(i);
+            if i + 1 < n {
+                chosen.insert(i + 1);
+            }
+        }
+        if let Some(Ev::Open { path, .. }) = trace.get(p.event_idx) {
+            if path.starts_with("mani/") {
+                chosen.insert(i);
+            }
+        }
+    }
+    while chosen.len() < max_points.min(n) {
+        chosen.insert(rng.usize_below(n));
+    }
+    chosen.into_iter().take(max_points.max(64)).collect()
+}
+
+fn states_for(h: &History, p: &PointInfo) -> (Map, Option<Map>, Option<&'static str>) {
+    let s_prev = model::state_after(h, p.acked);
+    match p.in_flight {
+        Some(i) if i < h.ops.len() => {
+            let kind = h.ops[i].kind();
+            if h.ops[i].is_client_write() && i >= p.acked {
+                let mut s_next = s_prev.clone();
+                model::apply_op(&mut s_next, h, i, &h.ops[i]);
+                (s_prev, Some(s_next), Some(kind))
+            } else {
+                (s_prev, None, Some(kind))
+            }
+        }
+        _ => (s_prev, None, None),
+    }
+}
+
+#[derive(Default)]
+struct HistoryResult {
+    images: u64,
+    images_b_identical: u64,
+    fault_runs: u64,
+    distinct_cases: BTreeSet<String>,
+    violations: Vec<(Violation, Option<CrashPoint>, Option<FaultPoint>)>,
+    probes: Probes,
+    calls: u64,
+    skipped_bad_recording: bool,
+    faults_fired: BTreeMap<String, u64>,
+    fault_outcomes: BTreeMap<String, u64>,
+    sample: Option<serde_json::Value>,
+}
+
+fn phase_of(trace: &[Ev], p: &PointInfo) -> String {
+    // coarse protocol phase: which directory the next call touches
+    let path = match trace.get(p.event_idx) {
+        Some(Ev::Open { path, .. }) => path.clone(),
+        Some(Ev::Link { new, .. }) => new.clone(),
+        Some(Ev::Rename { new, .. }) => new.clone(),
+        Some(Ev::Unlink { path }) => path.clone(),
+        Some(Ev::Mkdir { path }) => path.clone(),
+        Some(Ev::Rmdir { path }) => path.clone(),
+        _ => String::new(),
+    };
+    let dir = path.split('/').next().unwrap_or("");
+    if dir.starts_with("log.") {
+        "log".to_string()
+    } else {
+        dir.to_string()
+    }
+}
+
+#[allow(clippy::too_many_arguments)]
+fn crash_history(
+    h: &History,
+    worker: usize,
+    max_points: usize,
+    do_crash: bool,
+    do_faults: bool,
+    max_faults: usize,
+    riders: bool,
+    seed: u64,
+) -> HistoryResult {
+    let mut res = HistoryResult::default();
+    let base = util::scratch_for(worker);
+    let rec_root = base.join("rec");
+    let rec = record(h, &rec_root);
+    if !rec.ok {
+        res.skipped_bad_recording = true;
+        return res;
+    }
+    res.probes.merge(&rec.probes);
+    let n = rec.points.len();
+    res.calls = (n - 1) as u64;
+    let mut rng = Rng::new(rng::mix(&[seed, h.seed, 77]));
+    let chosen = sample_points(n, max_points, &mut rng, &rec.trace, &rec.points);
+    res.sample = Some(json!({
+        "history": h.summary(),
+        "mutating_calls": n - 1,
+        "crash_points_examined": chosen.len(),
+        "first_calls": rec.trace.iter().filter(|e| e.is_mutation()).take(12).map(|e| e.describe()).collect::<Vec<_>>(),
+    }));
+    if do_crash {
+        let chosen_set: BTreeSet<usize> = chosen.iter().copied().collect();
+        let mut image = Image::new();
+        let mut next_point = 0usize;
+        let img_dir = base.join("img");
+        for (idx, ev) in rec.trace.iter().enumerate() {
+            while next_point < n && rec.points[next_point].event_idx == idx {
+                if chosen_set.contains(&next_point) {
+                    examine_point(h, &rec, next_point, &image, &img_dir, riders, seed, &mut res);
+                }
+                next_point += 1;
+            }
+            image.step(ev);
+        }
+        while next_point < n {
+            if chosen_set.contains(&next_point) {
+                examine_point(h, &rec, next_point, &image, &img_dir, riders, seed, &mut res);
+            }
+            next_point += 1;
+        }
+        let _ = std::fs::remove_dir_all(&img_dir);
+    }
+    if do_faults {
+        let total = n - 1;
+        let mut js: Vec<usize> = if total <= max_faults {
+            (0..total).collect()
+        } else {
+            let mut s = BTreeSet::new();
+            while s.len() < max_faults {
+                s.insert(rng.usize_below(total));
+            }
+            s.into_iter().collect()
+        };
+        js.sort();
+        for j in js {
+            for errno in [libc::EIO, libc::ENOSPC] {
+                let kind = rec.points[j].next_kind;
+                if errno == libc::ENOSPC && !matches!(kind, "write" | "create" | "mkdir" | "link") {
+                    continue;
+                }
+                fault_run(h, &base.join("flt"), j as u64, errno, &rec, &mut res);
+            }
+        }
+    }
+    res
+}
+
+#[allow(clippy::too_many_arguments)]
+fn examine_point(
+    h: &History,
+    rec: &Recorded,
+    pi: usize,
+    image: &Image,
+    img_dir: &Path,
+    riders: bool,
+    seed: u64,
+    res: &mut HistoryResult,
+) {
+    let p = &rec.points[pi];
+    let (s_prev, s_next, kind) = states_for(h, p);
+    let mut persists = vec![Persist::A];
+    if image.has_unsynced() {
+        persists.push(Persist::BNone);
+        persists.push(Persist::BSome(rng::mix(&[seed, pi as u64])));
+    } else {
+        res.images_b_identical += 2;
+    }
+    for persist in persists {
+        let _ = std::fs::remove_dir_all(img_dir);
+        if let Err(e) = image.materialize(img_dir, persist) {
+            eprintln!("HARNESS-ERROR: materialize: {e}");
+            std::process::exit(2);
+        }
+        res.images += 1;
+        let pm = match persist {
+            Persist::A => "A",
+            Persist::BNone => "B0",
+            Persist::BSome(_) => "Bn",
+        };
+        res.distinct_cases.insert(format!(
+            "{}|{}|{}|{pm}",
+            p.next_kind,
+            kind.unwrap_or("between-ops"),
+            phase_of(&rec.trace, p)
+        ));
+        *res.probes.0.entry(format!("crash_before_{}", p.next_kind)).or_insert(0) += 1;
+        let second = kind == Some("verify") || (pi % 7 == 0);
+        let vs = judge_image(h, img_dir, &s_prev, s_next.as_ref(), kind, riders, second, &mut res.probes);
+        for v in vs {
+            res.violations.push((
+                v,
+                Some(CrashPoint {
+                    k: pi as u64,
+                    persist,
+                }),
+                None,
+            ));
+        }
+    }
+}
+
+/// Re-execute the history with call `j` failing.
+fn fault_run(h: &History, root: &Path, j: u64, errno: i32, rec: &Recorded, res: &mut HistoryResult) {
+    res.fault_runs += 1;
+    let _ = std::fs::remove_dir_all(root);
+    std::fs::create_dir_all(root).expect("fault root");
+    let mut ex = Exec::new(h, root, Oracles::default());
+    fsx::install(root, Some(Fault { at: j, errno }));
+    exec::quiet_panics(true);
+    let violations: std::cell::RefCell<Vec<Violation>> = std::cell::RefCell::new(Vec::new());
+    let v = |class: String, detail: String| {
+        violations.borrow_mut().push(Violation {
+            property: "C02".to_string(),
+            class,
+            op_index: 0,
+            detail,
+        });
+    };
+    let ename = if errno == libc::EIO { "EIO" } else { "ENOSPC" };
+    // The fault may fire during the initial open.
+    let mut outcome = "not-fired";
+    let mut prev = Map::new();
+    let mut next: Option<Map> = None;
+    let opened = catch_unwind(AssertUnwindSafe(|| ex.open()));
+    let mut alive = true;
+    match opened {
+        Err(_) => {
+            let p = exec::take_panic();
+            v(format!("panic-under-io-error:{}", panic_class(&p)), format!("initial open with {ename} at call {j}: {p}"));
+            alive = false;
+        }
+        Ok(Err(_)) => {
+            alive = false;
+            outcome = if fsx::fault_fired().is_some() { "open-returned-error" } else { "open-error-without-fault" };
+        }
+        Ok(Ok(())) => {
+            if fsx::fault_fired().is_some() {
+                let fired = fsx::fault_fired().unwrap();
+                if !best_effort_site(&fired) {
+                    v("io-error-swallowed:open".to_string(), format!("{fired} during open, open returned Ok"));
+                }
+                outcome = "open-swallowed";
+            }
+        }
+    }
+    let mut fired_at: Option<usize> = None;
+    if alive && fsx::fault_fired().is_none() {
+        for (i, op) in h.ops.iter().enumerate() {
+            ex.cur_op = i;
+            let r = catch_unwind(AssertUnwindSafe(|| ex.debug_exec_no_model(i, op)));
+            let fired = fsx::fault_fired();
+            match (&r, fired.as_ref()) {
+                (Ok(Ok(())), None) => {
+                    model::apply_op(&mut prev, h, i, op);
+                    continue;
+                }
+                (_, None) => {
+                    // divergence from the recording without a fault: harness problem
+                    outcome = "diverged-before-fault";
+                    alive = false;
+                    break;
+                }
+                (Err(_), Some(f)) => {
+                    let p = exec::take_panic();
+                    v(
+                        format!("panic-under-io-error:{}:{}", op.kind(), panic_class(&p)),
+                        format!("{f} during {}: {p}", op.kind()),
+                    );
+                    alive = false;
+                    break;
+                }
+                (Ok(Ok(())), Some(f)) => {
+                    fired_at = Some(i);
+                    outcome = "op-returned-ok";
+                    if !best_effort_site(f) {
+                        v(
+                            format!("io-error-swallowed:{}:{}", op.kind(), kind_of_fired(f)),
+                            format!("{f} during {} but the call returned Ok", op.kind()),
+                        );
+                    }
+                    if op.is_client_write() {
+                        // acknowledged => must be present
+                        model::apply_op(&mut prev, h, i, op);
+                    }
+                    break;
+                }
+                (Ok(Err(_)), Some(_)) => {
+                    fired_at = Some(i);
+                    outcome = "op-returned-error";
+                    if op.is_client_write() {
+                        let mut n = prev.clone();
+                        model::apply_op(&mut n, h, i, op);
+                        next = Some(n);
+                    }
+                    break;
+                }
+            }
+        }
+    }
+    *res.fault_outcomes.entry(outcome.to_string()).or_insert(0) += 1;
+    if let Some(f) = fsx::fault_fired() {
+        *res.faults_fired.entry(format!("{}:{}", ename, kind_of_fired(&f))).or_insert(0) += 1;
+        res.distinct_cases.insert(format!(
+            "fault|{}|{}|{}|{}",
+            ename,
+            kind_of_fired(&f),
+            fired_at.map(|i| h.ops[i].kind()).unwrap_or("open"),
+            phase_of(&rec.trace, &rec.points[(j as usize).min(rec.points.len() - 1)])
+        ));
+    }
+    // Live instance: what is readable right after the failed call is one of the two states.
+    if alive && violations.borrow().is_empty() && fired_at.is_some() {
+        let r = catch_unwind(AssertUnwindSafe(|| observe(&ex)));
+        match r {
+            Ok(Ok(obs)) => {
+                let wp = normalise(&prev, h);
+                let wn = next.as_ref().map(|n| normalise(n, h));
+                if obs != wp && wn.as_ref().map(|w| obs != *w).unwrap_or(true) {
+                    v(
+                        "wrong-data-readable-after-io-error".to_string(),
+                        format!("live store after {ename} at call {j}: {}", describe_diff(&obs, &wp)),
+                    );
+                }
+            }
+            Ok(Err(_)) => {
+                *res.fault_outcomes.entry("live-read-error-after-fault".into()).or_insert(0) += 1;
+            }
+            Err(_) => {
+                let p = exec::take_panic();
+                v(format!("panic-under-io-error:read:{}", panic_class(&p)), p);
+            }
+        }
+    }
+    let _ = catch_unwind(AssertUnwindSafe(|| ex.close()));
+    let _ = fsx::uninstall();
+    // Clean reopen without faults.
+    if violations.borrow().is_empty() && (fired_at.is_some() || outcome.starts_with("open-")) {
+        let mut ex2 = Exec::new(h, root, Oracles::default());
+        match catch_unwind(AssertUnwindSafe(|| ex2.open())) {
+            Err(_) => {
+                let p = exec::take_panic();
+                v(format!("reopen-panicked-after-io-error:{}", panic_class(&p)), p);
+            }
+            Ok(Err(_)) => {
+                *res.fault_outcomes.entry("clean-reopen-failed-with-explicit-error".into()).or_insert(0) += 1;
+            }
+            Ok(Ok(())) => match catch_unwind(AssertUnwindSafe(|| observe(&ex2))) {
+                Ok(Ok(obs)) => {
+                    let wp = normalise(&prev, h);
+                    let wn = next.as_ref().map(|n| normalise(n, h));
+                    if obs != wp && wn.as_ref().map(|w| obs != *w).unwrap_or(true) {
+                        v(
+                            "wrong-data-after-io-error-and-reopen".to_string(),
+                            format!("after {ename} at call {j} and a clean reopen: {}", describe_diff(&obs, &wp)),
+                        );
+                    } else {
+                        *res.fault_outcomes.entry("clean-reopen-consistent".into()).or_insert(0) += 1;
+                    }
+                }
+                Ok(Err(_)) => {
+                    *res.fault_outcomes.entry("read-error-after-clean-reopen".into()).or_insert(0) += 1;
+                }
+                Err(_) => {
+                    let p = exec::take_panic();
+                    v(format!("read-panicked-after-io-error:{}", panic_class(&p)), p);
+                }
+            },
+        }
+        let _ = catch_unwind(AssertUnwindSafe(|| ex2.close()));
+    }
+    exec::quiet_panics(false);
+    for x in violations.into_inner() {
+        res.violations.push((x, None, Some(FaultPoint { at: j, errno })));
+    }
+}
+
+fn kind_of_fired(f: &str) -> String {
+    // "call#12 write h3 errno=5" -> "write"
+    f.split(' ').nth(1).unwrap_or("?").to_string()
+}
+
+/// The two call sites the code documents as best effort: renaming a retired SST into trash/.
+fn best_effort_site(fired: &str) -> bool {
+    fired.contains(" rename sst/") && fired.contains(" trash/")
+}
+
+pub fn cmd_crash(args: &Args) -> i32 {
+    let prop = args.str("prop", "C02");
+    let tier = args.str("tier", "quick");
+    let seed = args.u64("seed", 1);
+    let runs = args.u64("runs", 40);
+    let threads = args.u64("threads", 16) as usize;
+    let budget_s = args.get("budget-s").map(|s| s.parse::<f64>().unwrap());
+    let max_points = args.u64("max-points", 400) as usize;
+    let max_faults = args.u64("max-faults", 120) as usize;
+    let do_crash = args.str("crash", "true") == "true";
+    let do_faults = args.str("faults", "true") == "true";
+    let phase = args.str("phase", "crash");
+    let profiles: Vec<Profile> = args
+        .str("profiles", "kvs-short")
+        .split(',')
+        .map(|n| Profile::by_name(n).unwrap_or_else(|| panic!("unknown profile {n}")))
+        .collect();
+    let out_path = PathBuf::from(args.str("out", "/verif/evidence/parts/crash.json"));
+    let replay_dir = PathBuf::from(args.str("replay-dir", "/verif/replays"));
+    let known = KnownFindings::load(Path::new(&args.str("known", "/verif/known_findings.json")));
+    let riders = prop != "C02";
+    let start = std::time::Instant::now();
+    println!(
+        "VERIF_SEED={seed} property={prop} engine=crashsim tier={tier} histories={runs} max_points={max_points} crash={do_crash} faults={do_faults}"
+    );
+    let profiles2 = profiles.clone();
+    let results = util::par_map(runs, threads, budget_s, move |r, w| {
+        let p = &profiles2[(r % profiles2.len() as u64) as usize];
+        let h = hist::generate(seq::history_seed(seed, "crash", r), p);
+        let res = crash_history(&h, w, max_points, do_crash, do_faults, max_faults, true, seed);
+        (r, h, res)
+    });
+    let done: Vec<(u64, History, HistoryResult)> = results.into_iter().flatten().collect();
+    let mut images = 0u64;
+    let mut b_ident = 0u64;
+    let mut fault_runs = 0u64;
+    let mut calls = 0u64;
+    let mut distinct: BTreeSet<String> = BTreeSet::new();
+    let mut probes = Probes::default();
+    let mut faults_fired: BTreeMap<String, u64> = BTreeMap::new();
+    let mut fault_outcomes: BTreeMap<String, u64> = BTreeMap::new();
+    let mut skipped = 0u64;
+    let mut samples = Vec::new();
+    let mut mine: BTreeMap<String, (u64, Violation, Option<CrashPoint>, Option<FaultPoint>)> = BTreeMap::new();
+    let mut class_counts: BTreeMap<String, u64> = BTreeMap::new();
+    let mut other: BTreeMap<String, u64> = BTreeMap::new();
+    for (r, _h, res) in done.iter() {
+        images += res.images;
+        b_ident += res.images_b_identical;
+        fault_runs += res.fault_runs;
+        calls += res.calls;
+        distinct.extend(res.distinct_cases.iter().cloned());
+        probes.merge(&res.probes);
+        for (k, v) in res.faults_fired.iter() {
+            *faults_fired.entry(k.clone()).or_insert(0) += v;
+        }
+        for (k, v) in res.fault_outcomes.iter() {
+            *fault_outcomes.entry(k.clone()).or_insert(0) += v;
+        }
+        if res.skipped_bad_recording {
+            skipped += 1;
+        }
+        if samples.len() < 3 {
+            if let Some(s) = res.sample.clone() {
+                samples.push(s);
+            }
+        }
+        for (v, cp, fp) in res.violations.iter() {
+            if v.property == prop {
+                *class_counts.entry(v.class.clone()).or_insert(0) += 1;
+                mine.entry(v.class.clone())
+                    .or_insert((*r, v.clone(), cp.clone(), fp.clone()));
+            } else {
+                *other.entry(format!("{}:{}", v.property, v.class)).or_insert(0) += 1;
+            }
+        }
+    }
+    let _ = riders;
+    // triage
+    let mut exit = 0;
+    let mut known_out = Vec::new();
+    let mut new_classes = 0u64;
+    let mut reported = 0;
+    for (class, (r, v, cp, fp)) in mine.iter() {
+        if let Some(f) = known.matches(&prop, class) {
+            println!(
+                "KNOWN-FINDING: property={prop} class={} seen={} {}",
+                f.class,
+                class_counts.get(class).copied().unwrap_or(0),
+                f.description
+            );
+            known_out.push(format!("{class} (seen {} times)", class_counts.get(class).copied().unwrap_or(0)));
+            continue;
+        }
+        new_classes += 1;
+        if reported >= 3 {
+            continue;
+        }
+        reported += 1;
+        let h = &done.iter().find(|(rr, _, _)| rr == r).unwrap().1;
+        let (hmin, cpmin, fpmin) = minimise_crash(h, &prop, class, cp.clone(), fp.clone(), seed);
+        let replay = Replay {
+            property: prop.clone(),
+            engine: if fpmin.is_some() { "faultsim" } else { "crashsim" }.to_string(),
+            class: class.clone(),
+            detail: v.detail.clone(),
+            verif_seed: seed,
+            run_index: *r,
+            original_ops: h.ops.len(),
+            history: hmin,
+            crash: cpmin,
+            fault: fpmin,
+        };
+        match seq::write_and_confirm_replay(&replay, &replay_dir) {
+            Ok(path) => {
+                println!("violation class={class} history={r} {:?} {:?}: {}", replay.crash, replay.fault, v.detail);
+                println!("VIOLATION property={prop} replay={}", path.display());
+                exit = 1;
+            }
+            Err(e) => {
+                eprintln!("HARNESS-ERROR: {e}");
+                util::cleanup_scratch();
+                return 2;
+            }
+        }
+    }
+    let wall = start.elapsed().as_secs_f64();
+    let mut extra = BTreeMap::new();
+    extra.insert("histories".to_string(), json!(done.len()));
+    extra.insert("histories_skipped_recording_not_clean".to_string(), json!(skipped));
+    extra.insert("mutating_calls_recorded".to_string(), json!(calls));
+    extra.insert("crash_images_reopened".to_string(), json!(images));
+    extra.insert("model_b_images_identical_to_model_a_not_rerun".to_string(), json!(b_ident));
+    extra.insert("single_fault_runs".to_string(), json!(fault_runs));
+    extra.insert("faults_fired_by_errno_and_call".to_string(), json!(faults_fired));
+    extra.insert("fault_outcomes".to_string(), json!(fault_outcomes));
+    extra.insert("probes".to_string(), json!(probes.0));
+    extra.insert("images_per_hour".to_string(), json!((images as f64 / wall * 3600.0) as u64));
+    extra.insert("violation_classes_seen".to_string(), json!(class_counts));
+    extra.insert("other_property_observations".to_string(), json!(other));
+    let part = Part {
+        property_id: prop.clone(),
+        engine: "crashsim".to_string(),
+        phase,
+        tier,
+        seed,
+        evaluations: images + fault_runs,
+        distinct_nontrivial: distinct.len() as u64,
+        rule: "one evaluation = one crash image (a prefix of the recorded system-call trace of a seeded history, under persistence model A = every completed call persists, B0 = unsynced file bytes lost, Bn = a seeded prefix of each file's unsynced whole writes survives) materialised and reopened with the real code, or one re-execution of the history with exactly one call failing with EIO/ENOSPC; distinct non-trivial = distinct (next call kind, operation in flight, directory the call touches, persistence model) for images and (errno, call kind, operation, directory) for faults".to_string(),
+        samples,
+        wall_s: wall,
+        violations: new_classes,
+        known_findings: known_out,
+        extra,
+    };
+    part.write(&out_path);
+    println!(
+        "crashsim {prop}: {} histories, {} images, {} fault runs, {} distinct cases, {:.1}s, new violation classes: {}",
+        done.len(),
+        images,
+        fault_runs,
+        distinct.len(),
+        wall,
+        new_classes
+    );
+    util::cleanup_scratch();
+    exit
+}
+
+/// Does `h` with the given crash point / fault show `class` for `prop`?
+fn reproduces(
+    h: &History,
+    prop: &str,
+    class: &str,
+    cp: &Option<CrashPoint>,
+    fp: &Option<FaultPoint>,
+    search_all_points: bool,
+    seed: u64,
+    worker: usize,
+) -> Option<(Option<CrashPoint>, Option<FaultPoint>, Violation)> {
+    let base = util::scratch_for(worker).join("repro");
+    let rec = record(h, &base.join("rec"));
+    if !rec.ok {
+        return None;
+    }
+    let n = rec.points.len();
+    if let Some(fp) = fp {
+        let mut res = HistoryResult::default();
+        let candidates: Vec<u64> = if search_all_points {
+            (0..(n as u64 - 1)).collect()
+        } else {
+            vec![fp.at]
+        };
+        for at in candidates {
+            if at as usize >= n {
+                continue;
+            }
+            res.violations.clear();
+            fault_run(h, &base.join("flt"), at, fp.errno, &rec, &mut res);
+            if let Some((v, _, f)) = res
+                .violations
+                .iter()
+                .find(|(v, _, _)| v.property == prop && v.class == class)
+            {
+                return Some((None, f.clone(), v.clone()));
+            }
+        }
+        return None;
+    }
+    let cp = cp.as_ref()?;
+    let mut image = Image::new();
+    let mut next_point = 0usize;
+    let img_dir = base.join("img");
+    let mut probes = Probes::default();
+    let mut try_point = |pi: usize, image: &Image| -> Option<Violation> {
+        let p = &rec.points[pi];
+        let (s_prev, s_next, kind) = states_for(h, p);
+        let _ = std::fs::remove_dir_all(&img_dir);
+        image.materialize(&img_dir, cp.persist).ok()?;
+        let vs = judge_image(h, &img_dir, &s_prev, s_next.as_ref(), kind, true, kind == Some("verify") || pi % 7 == 0, &mut probes);
+        vs.into_iter().find(|v| v.property == prop && v.class == class)
+    };
+    for (idx, ev) in rec.trace.iter().enumerate() {
+        while next_point < n && rec.points[next_point].event_idx == idx {
+            if search_all_points || next_point as u64 == cp.k {
+                if let Some(v) = try_point(next_point, &image) {
+                    return Some((
+                        Some(CrashPoint {
+                            k: next_point as u64,
+                            persist: cp.persist,
+                        }),
+                        None,
+                        v,
+                    ));
+                }
+            }
+            next_point += 1;
+        }
+        image.step(ev);
+    }
+    while next_point < n {
+        if search_all_points || next_point as u64 == cp.k {
+            if let Some(v) = try_point(next_point, &image) {
+                return Some((
+                    Some(CrashPoint {
+                        k: next_point as u64,
+                        persist: cp.persist,
+                    }),
+                    None,
+                    v,
+                ));
+            }
+        }
+        next_point += 1;
+    }
+    let _ = seed;
+    None
+}
+
+fn minimise_crash(
+    h: &History,
+    prop: &str,
+    class: &str,
+    cp: Option<CrashPoint>,
+    fp: Option<FaultPoint>,
+    seed: u64,
+) -> (History, Option<CrashPoint>, Option<FaultPoint>) {
+    let start = std::time::Instant::now();
+    let mut best = h.clone();
+    let mut best_cp = cp.clone();
+    let mut best_fp = fp.clone();
+    // prefer the simplest persistence model that still fails
+    if let Some(c) = cp.as_ref() {
+        if c.persist != Persist::A {
+            let alt = Some(CrashPoint {
+                k: c.k,
+                persist: Persist::A,
+            });
+            if reproduces(&best, prop, class, &alt, &None, false, seed, 0).is_some() {
+                best_cp = alt;
+            }
+        }
+    }
+    // truncate the history after the op that was in flight, then ddmin on ops
+    let mut chunk = (best.ops.len() / 2).max(1);
+    while start.elapsed().as_secs_f64() < 45.0 {
+        let mut i = 0;
+        let mut progressed = false;
+        while i < best.ops.len() && start.elapsed().as_secs_f64() < 45.0 {
+            let end = (i + chunk).min(best.ops.len());
+            let mut cand = best.clone();
+            cand.ops.drain(i..end);
+            if let Some((c, f, _)) = reproduces(&cand, prop, class, &best_cp, &best_fp, true, seed, 0) {
+                best = cand;
+                best_cp = c.or(best_cp);
+                best_fp = f.or(best_fp);
+                progressed = true;
+            } else {
+                i += chunk;
+            }
+        }
+        if chunk == 1 {
+            if !progressed {
+                break;
+            }
+        } else {
+            chunk /= 2;
+        }
+    }
+    // re-anchor the crash point on the final history (earliest point with the class)
+    if let Some((c, f, _)) = reproduces(&best, prop, class, &best_cp, &best_fp, true, seed, 0) {
+        best_cp = c.or(best_cp);
+        best_fp = f.or(best_fp);
+    }
+    (best, best_cp, best_fp)
+}
+
+pub fn replay(r: &Replay, path: &Path) -> i32 {
+    let found = reproduces(&r.history, &r.property, &r.class, &r.crash, &r.fault, false, r.verif_seed, 0);
+    match found {
+        Some((cp, fp, v)) => {
+            println!("reproduced: class={} crash={cp:?} fault={fp:?} {}", v.class, v.detail);
+            println!("VIOLATION property={} replay={}", r.property, path.display());
+            1
+        }
+        None => {
+            println!("NOT-REPRODUCED: expected class {}", r.class);
+            0
+        }
+    }
 }
